@@ -451,6 +451,22 @@ class FaultyLinear:
                 outer.nsolve += 1
                 if outer.spec.get("solve") == outer.nsolve:
                     raise LinearSolverError("injected solve failure")
+                if outer.spec.get("estimator_solve") is not None:
+                    # failures of the condition estimator's own back-solves only (the Newton solves are left alone, so a
+                    # run without report_rcond is not affected at all)
+                    import sys as _sys
+                    f, from_estimator = _sys._getframe(1), False
+                    for _ in range(6):
+                        if f is None:
+                            break
+                        if f.f_code.co_filename.endswith("cond_estimate.py"):
+                            from_estimator = True
+                            break
+                        f = f.f_back
+                    if from_estimator:
+                        outer.nest = getattr(outer, "nest", 0) + 1
+                        if outer.nest == outer.spec["estimator_solve"]:
+                            raise LinearSolverError("injected failure of a condition-estimator back-solve")
                 return inner.solve(rhs, trans=trans, initial_sol=initial_sol)
 
             def num_neg_eigvals(self):
